@@ -2,7 +2,8 @@ ID = 'C01'
 TITLE = 'Edit primitives apply exactly the requested string edit and nothing else'
 CONTRACT_MODULES = ['contracts.utils_c', 'contracts.ersatz_c']
 FUNCTIONS = ['tangermeme.ersatz.substitute', 'tangermeme.ersatz.insert', 'tangermeme.ersatz.delete',
-             'tangermeme.ersatz.multisubstitute', 'tangermeme.ersatz.randomize', 'tangermeme.utils._validate_input']
+             'tangermeme.ersatz.multisubstitute', 'tangermeme.ersatz.randomize', 'tangermeme.utils._validate_input',
+             'tangermeme.utils.random_one_hot']
 BOUNDED = 'bounded.C01'
 BOUNDED_BUDGET = {'quick': 120, 'thorough': 900}
 LEVEL = 'proof'
@@ -10,8 +11,8 @@ EXPLANATION = ("three-sided contracts (exact edit / raises-iff / acceptance / on
                "ersatz functions, every obligation generated from the current AST and discharged by z3 for all tensor sizes, "
                "alphabet sizes and integer positions; the call-site contract of utils._validate_input that these proofs use is itself verified against "
                "its body (one-hot-structured tensors with an arbitrary index function, plain integer / real tensors; torch.unique and min / max as "
-               "assumed relations); bounded layer replays the same contracts on the real functions")
+               "assumed relations), and so is utils.random_one_hot (loop invariant over the buffer, RandomState.choice assumed); bounded layer replays the same contracts on the real functions")
 ASSUMPTIONS = ["utils._validate_input: verified on the argument families callers pass; allow_N=True and dtype= are outside the verified subset; torch.unique = strictly increasing vector of the occurring values, tensor.min/max bound every element and are attained (axioms, vf/lib.py)",
-               "utils.random_one_hot: draw number k of the generator tape is some one-hot tensor of the requested shape; invalid probabilities are rejected (assumed)",
+               "utils.random_one_hot: verified against its body (row b of the result is draw pos0 + b of the generator, one-hot of exactly the requested shape, generator advanced once per example; rejected exactly when shape is not a 3-tuple or a needed probability row is missing / malformed); what remains assumed is numpy's RandomState.choice(n, size, p): `size` values in [0, n) determined by the generator state, invalid probabilities raise; the call-site form counts generator positions in calls rather than draws (renaming RNDOH(tape, k, b, p) = CHOICE(tape, pos0 + k*B + b, p))",
                "inputs are one-hot with alphabet size >= 2, batch >= 1, length >= 1 (precondition of the property)"]
 TRUSTED = []
